@@ -68,6 +68,7 @@ class LSize:
 
 
 _SEAMS: List[Tuple[str, str]] = []      # (axis, kind) events of the current interpretation
+_MIXED: List[str] = []                  # coordinate of one axis tested against / wrapped by the extent of another
 
 
 class Coord:
@@ -116,6 +117,8 @@ class Coord:
         if isinstance(o, int) and o in (2, 4):
             return (self.res + self.off) % o
         if isinstance(o, LSize):
+            if o.axis in AX and self.axis in AX and o.axis != self.axis:
+                _MIXED.append(f'{self.axis} coordinate wrapped modulo the extent of axis {o.axis} ({o!r})')
             _SEAMS.append((o.axis or self.axis, 'mod'))
             return Coord(self.axis, self.res, self.off, True)
         return TOP
@@ -129,6 +132,8 @@ class Coord:
             return TOP
         if isinstance(other, LSize):
             # comparison of a bulk coordinate with a lattice limit: false in the bulk, but it marks a seam test
+            if other.axis in AX and self.axis in AX and other.axis != self.axis:
+                _MIXED.append(f'{self.axis} coordinate compared with the extent of axis {other.axis} ({other!r})')
             _SEAMS.append((other.axis or self.axis, 'compare'))
             if isinstance(op, ast.NotEq):
                 return True
@@ -410,6 +415,7 @@ def _code_geometry(ctx: Ctx, cname: str):
 def _decoder_flip(ctx: Ctx, dname: str, edge: Tuple[int, ...]):
     ci, fn = ctx.model.method(dname, 'flip_edge')
     del _SEAMS[:]
+    del _MIXED[:]
     hooks = GeoHooks()
     it = Interp(ctx.model, hooks)
     dec = Obj(ci, 'decoder')
@@ -423,7 +429,7 @@ def _decoder_flip(ctx: Ctx, dname: str, edge: Tuple[int, ...]):
     outs = guard('R10.3', ci.module, fn)(lambda: it.explore(thunk))
     rets = [o for o in outs if o.kind == 'return']
     seams = {a for a, kind in _SEAMS if kind in ('mod', 'compare') and a in AX}
-    return rets, outs, seams, site_of(ci.module, fn)
+    return rets, outs, seams, site_of(ci.module, fn), sorted(set(_MIXED))
 
 
 PAIRS = [('SweepDecoder3D', 'Toric3DCode'), ('SweepDecoder3D', 'Planar3DCode'),
@@ -439,9 +445,11 @@ def _r103_104(ctx: Ctx) -> None:
         edges, faces, support, code_seams = _code_geometry(ctx, cname)
         ctx.need(len(edges) >= 3 and len(faces) >= 3, 'R10.3', cname, f'{cname}: {len(edges)} edge / {len(faces)} face classes')
         dec_seams_all: Set[str] = set()
+        mixed_all: Set[str] = set()
         for e in edges:
-            rets, outs, dseams, site = _decoder_flip(ctx, dname, e)
+            rets, outs, dseams, site, mixed = _decoder_flip(ctx, dname, e)
             dec_seams_all |= dseams
+            mixed_all |= set(mixed)
             # expected: faces f = e - delta' with residue class fc, for every face class fc and delta' in support(fc)
             want = set()
             for fc, offs in support.items():
@@ -473,6 +481,11 @@ def _r103_104(ctx: Ctx) -> None:
                        ('' if guarded else 'toggle of a location that was not checked with is_stabilizer (boundary '
                                            'truncation); ') + ('' if form else f'store is not a mod-2 toggle: {txt}'),
                        key=f'{dname}|toggle-form[{e}|{tuple(c.off for c in loc) if isinstance(loc, tuple) else loc}]')
+        ctx.ob('R10.4', site, f'{dname}.flip_edge ({cname}): every limit or wrap of a coordinate uses the lattice extent of '
+                              f'the same axis', not mixed_all,
+               '; '.join(sorted(mixed_all)) + ': on a lattice with different extents along the two axes faces inside the lattice '
+               'are cut off (or faces outside it kept), so the tracked faces differ from the true syndrome',
+               key=f'{dname}|{cname}|axes', facts=sorted(mixed_all))
         ok = code_seams <= dec_seams_all
         ctx.ob('R10.4', site_of(dci.module, dci.node), f'{dname} wraps the periodic axes of {cname}', ok,
                f'{cname}.get_stabilizer re-enters across the seam on axes {sorted(code_seams)}; {dname}.flip_edge '
@@ -512,7 +525,14 @@ class MoveHooks(Hooks):
                 self.events.append(('toggle', args[2] if len(args) > 2 else kwargs.get('location'),
                                     args[1] if len(args) > 1 else kwargs.get('pauli'), args[0] if args else None))
                 return None
-            if nm in ('is_stabilizer', 'stabilizer_type', 'get_default_direction'):
+            if nm == 'get_default_direction':
+                # the tie-break draws from a literal collection: one path per value it can return (a draw from anything
+                # else stays unknown)
+                vals = _choice_values(func.closure.fn)
+                if vals:
+                    return vals[it.choose(len(vals), node)]
+                return TOP
+            if nm in ('is_stabilizer', 'stabilizer_type'):
                 return TOP
             if nm in ('get_sweep_faces', 'get_sweep_edges'):
                 return tuple(Tagged(nm, i, len(self.events)) for i in range(3))
@@ -539,6 +559,38 @@ class MoveHooks(Hooks):
             self.events.append(('contains', a))
             return TOP
         return NOT_HANDLED
+
+
+def _choice_values(fn) -> Optional[list]:
+    """Values of `int(rng.choice(<literal list>, ...)[0])` / `rng.choice(<literal>)` / `rng.integers(k)` returned by a
+    one-expression tie-break method; None when the method has another shape."""
+    rets = [n for n in ast.walk(fn) if isinstance(n, ast.Return) and n.value is not None]
+    if len(rets) != 1:
+        return None
+    e = rets[0].value
+    defs = {n.targets[0].id: n.value for n in ast.walk(fn)
+            if isinstance(n, ast.Assign) and len(n.targets) == 1 and isinstance(n.targets[0], ast.Name)}
+    for _ in range(4):
+        if isinstance(e, ast.Name) and e.id in defs:
+            e = defs[e.id]
+        elif isinstance(e, ast.Call) and isinstance(e.func, ast.Name) and e.func.id == 'int' and len(e.args) == 1:
+            e = e.args[0]
+        elif isinstance(e, ast.Subscript) and isinstance(e.slice, ast.Constant) and e.slice.value == 0:
+            e = e.value
+        else:
+            break
+    if isinstance(e, ast.Call) and isinstance(e.func, ast.Attribute) and e.func.attr == 'choice' and e.args:
+        try:
+            v = ast.literal_eval(e.args[0])
+        except ValueError:
+            return None
+        if isinstance(v, int):
+            return list(range(v))
+        return sorted(set(v)) if isinstance(v, (list, tuple)) and all(isinstance(x, int) for x in v) else None
+    if isinstance(e, ast.Call) and isinstance(e.func, ast.Attribute) and e.func.attr in ('integers', 'randint') \
+            and len(e.args) == 1 and isinstance(e.args[0], ast.Constant) and isinstance(e.args[0].value, int):
+        return list(range(e.args[0].value))
+    return None
 
 
 def _fancy_toggles(ctx: Ctx) -> None:
@@ -625,6 +677,14 @@ def _r101_102(ctx: Ctx) -> None:
         outs = guard('R10.1', ci.module, fn)(lambda: it.explore(thunk))
         rets = [o for o in outs if o.kind == 'return']
         ctx.need(rets, 'R10.1', site, f'{dname}.sweep_move: no returning path')
+        # the only unknowns of this interpretation are the excitations and the tie-break value: a path that ends in a
+        # lookup error is a combination of them the method cannot handle
+        raising = [o for o in outs if o.kind == 'raise' and str(o.exc).split('(')[0] in ('KeyError', 'IndexError')]
+        ctx.ob('R10.1', site, f'{dname}.sweep_move handles every combination of excited faces and every tie-break value '
+                              f'({len(outs)} paths)', not raising,
+               f'{len(raising)} path(s) end in {raising[0].exc if raising else ""}: a value the tie-break can return (or a '
+               f'combination of excited faces) has no entry in a lookup of sweep_move', key=f'{dname}.sweep_move|total',
+               facts={'paths': len(outs)})
         n_flips = 0
         bad = None
         bad_z = None
